@@ -171,8 +171,8 @@ def alg_rules(n_norm=None, n_verify=None, n_text=None, n_insert=None):
     if n_norm is not None:
         r.append((r"normalize_block_hash_in_place_internal", n_norm))
     if n_verify is not None:
+        # loop over blockhash[..len]; the zero-tail scan (Iterator::any over [len..N]) keeps the default 66
         r.append((r"verify_block_hash_internal", n_verify))
-        r.append((r"Iterator>::any::<.closure@" + ALG_SRC, n_verify))
     if n_text is not None:
         r.append((r"parse_block_hash_from_bytes|parse_block_size_from_bytes", n_text))
     if n_insert is not None:
